@@ -166,6 +166,7 @@ type PathResult struct {
 	Merged       int
 	MergeAborts  int
 	CrossN       int
+	CrossUnknown int
 	Known        map[string]*Violation
 	SampleInputs map[string]interface{}
 	SyncTrace    []string
@@ -216,6 +217,7 @@ type Summary struct {
 	Merged       int
 	MergeAborts  int
 	CrossN       int
+	CrossUnknown int
 	CrossStats   smt.Stats
 	Known        map[string]*Violation
 	Races        map[string]RaceReport
@@ -244,7 +246,7 @@ func (p *Program) Explore(fn *ssa.Function, opts ExploreOpts) *Summary {
 		opts.Solver = "z3-new"
 	}
 	if opts.TimeoutMS == 0 {
-		opts.TimeoutMS = 60000
+		opts.TimeoutMS = 240000
 	}
 	sum := &Summary{Harness: fn.Name(), Reached: map[string]int{}, Asserts: map[string]int{}, AssertsConc: map[string]int{},
 		Funcs: map[*ssa.Function]bool{}, DistinctSig: map[string]bool{}, Known: map[string]*Violation{}, Races: map[string]RaceReport{}}
@@ -328,6 +330,7 @@ func (p *Program) Explore(fn *ssa.Function, opts ExploreOpts) *Summary {
 			sum.Merged += res.Merged
 			sum.MergeAborts += res.MergeAborts
 			sum.CrossN += res.CrossN
+			sum.CrossUnknown += res.CrossUnknown
 			for _, rr := range res.Races {
 				sum.Races[rr.SiteA+" | "+rr.SiteB] = rr
 			}
@@ -473,6 +476,7 @@ func (p *Program) RunPath(fn *ssa.Function, prefix []Dec, solver *smt.Solver, op
 	res.SyncTrace = m.SyncTrace
 	res.Emitted = m.Emitted
 	res.CrossN = m.CrossN
+	res.CrossUnknown = m.CrossUnknown
 	m.cleanup()
 	if !solver.Dead() {
 		for solver.Depth() > 1 {
